@@ -487,6 +487,8 @@ impl Session {
     /// seconds is written out as a replay file and the process ends with exit code 97; the driver replays the
     /// case alone and reports a violation only if it hangs (or fails) again, otherwise the run is inconclusive.
     pub fn hang_is_violation(&self, secs: u64) {
+        // VERIF_HANG_SECS overrides the limit (used to test the monitor itself quickly)
+        let secs = std::env::var("VERIF_HANG_SECS").ok().and_then(|v| v.parse().ok()).unwrap_or(secs);
         inflight::HANG_MS.store(secs * 1000, Ordering::SeqCst);
     }
 
@@ -1088,44 +1090,54 @@ mod inflight {
                 Err(_) => continue,
             };
             let now = now_ms();
-            for slot in slots {
-                let p = slot.case.load(Ordering::SeqCst);
-                let since = slot.since_ms.load(Ordering::SeqCst);
-                if p.is_null() || now.saturating_sub(since) < limit {
-                    continue;
-                }
-                std::thread::sleep(Duration::from_millis(50));
-                if slot.case.load(Ordering::SeqCst) != p || slot.since_ms.load(Ordering::SeqCst) != since {
-                    continue;
-                }
-                if HANDLING.swap(true, Ordering::SeqCst) {
-                    return;
-                }
+            let over = |slot: &&'static Slot, lim: u64| !slot.case.load(Ordering::SeqCst).is_null() && now.saturating_sub(slot.since_ms.load(Ordering::SeqCst)) >= lim;
+            if !slots.iter().any(|s| over(s, limit)) {
+                continue;
+            }
+            // every case that is (nearly) over the limit is a candidate, oldest first: cases that only wait
+            // for the one that blocks (a shared pool, a concurrency cap) are told apart by the driver's replay
+            let mut cands: Vec<&'static Slot> = slots.iter().copied().filter(|s| over(s, limit.saturating_sub(5000))).collect();
+            cands.sort_by_key(|s| s.since_ms.load(Ordering::SeqCst));
+            let before: Vec<(*mut (), u64)> = cands.iter().map(|s| (s.case.load(Ordering::SeqCst), s.since_ms.load(Ordering::SeqCst))).collect();
+            std::thread::sleep(Duration::from_millis(200));
+            let cands: Vec<&'static Slot> = cands
+                .into_iter()
+                .zip(before)
+                .filter(|(s, (p, since))| s.case.load(Ordering::SeqCst) == *p && s.since_ms.load(Ordering::SeqCst) == *since)
+                .map(|(s, _)| s)
+                .collect();
+            if cands.is_empty() {
+                continue;
+            }
+            if HANDLING.swap(true, Ordering::SeqCst) {
+                return;
+            }
+            let reason = format!("this case has not returned after {} s: the code under test blocks for ever", limit / 1000);
+            if let Mode::Replay { path, .. } = &session.mode {
+                println!("VIOLATION property={} replay={}", session.id, path.display());
+                println!("  reason={reason}");
+                let _ = std::io::Write::flush(&mut std::io::stdout());
+                unsafe { libc::_exit(1) }
+            }
+            for slot in cands {
                 let gen = unsafe {
                     std::str::from_utf8_unchecked(std::slice::from_raw_parts(slot.gen_ptr.load(Ordering::SeqCst), slot.gen_len.load(Ordering::SeqCst)))
                 }
                 .to_string();
                 let f: fn(*const ()) -> J = unsafe { std::mem::transmute(slot.ser.load(Ordering::SeqCst)) };
-                let case = f(p);
-                let reason = format!("this case has not returned after {} s: the code under test blocks for ever", limit / 1000);
-                if let Mode::Replay { path, .. } = &session.mode {
-                    println!("VIOLATION property={} replay={}", session.id, path.display());
-                    println!("  reason={reason}");
-                    let _ = std::io::Write::flush(&mut std::io::stdout());
-                    unsafe { libc::_exit(1) }
-                }
+                let case = f(slot.case.load(Ordering::SeqCst));
                 let path = session.write_replay(&gen, &reason, &case);
                 println!("HUNG-WHILE property={} generator={} replay={}", session.id, gen, path);
-                for _ in 0..1000 {
-                    if let Ok(agg) = session.agg.try_lock() {
-                        let _ = session.write_evidence(&agg, session.start.elapsed().as_secs_f64(), agg.violations.len() + 1, true);
-                        break;
-                    }
-                    std::thread::yield_now();
-                }
-                let _ = std::io::Write::flush(&mut std::io::stdout());
-                unsafe { libc::_exit(97) }
             }
+            for _ in 0..1000 {
+                if let Ok(agg) = session.agg.try_lock() {
+                    let _ = session.write_evidence(&agg, session.start.elapsed().as_secs_f64(), agg.violations.len() + 1, true);
+                    break;
+                }
+                std::thread::yield_now();
+            }
+            let _ = std::io::Write::flush(&mut std::io::stdout());
+            unsafe { libc::_exit(97) }
         });
     }
 
